@@ -211,7 +211,15 @@ package dhcp
 // Addresses go back to the free list (or into quarantine) only when a session ends: neither
 // REQUEST nor DISCOVER releases or quarantines anything, whatever the message contains.
 //@ func (s *Server) handleRequest
+//@   mode goinline
 //@   ghost poolOwner int = 0
+//@   ghost acctStarts mathint = 0
+//@   ghost acctStops mathint = 0
+// accounting (C08, DHCP side): an acknowledged NEW session is started exactly once when RADIUS is
+// configured; a renewal and every refused request start and stop nothing
+//@   ensures acctStops == 0
+//@   ensures s.acksTotal == old(s.acksTotal) + 1 && isNewSession && old(s.radiusClient) != nil ==> acctStarts == 1
+//@   ensures acctStarts <= 1 && (!isNewSession || old(s.radiusClient) == nil ==> acctStarts == 0)
 //@   ghost relPool mathint = 0
 //@   ghost markedUnavailable mathint = 0
 //@   ghost relSessions mathint = 0
